@@ -2,7 +2,7 @@
 From Coq Require Import ZArith List String Bool.
 From Hexital Require Import Base.Prelude Base.Num Model.Manager Model.Candle Model.Readings Model.Engine
   Model.Hexital Model.Analysis Proofs.FrameProofs Proofs.HexitalProofs Proofs.AnalysisProofs Proofs.CausalProofs
-  Proofs.SimProofs Proofs.NonInterference Proofs.DeliverProofs Proofs.ParamProofs Proofs.HxSimProofs Proofs.SeedProofs.
+  Proofs.SimProofs Proofs.NonInterference Proofs.DeliverProofs Proofs.ParamProofs Proofs.HxSimProofs Proofs.SeedProofs Proofs.NonInterferenceTF.
 Import ListNotations.
 
 (* A member that has a timeframe (manager) of its own: appending to the Hexital is exactly
@@ -100,3 +100,20 @@ Proof.
   intros. split; [split; reflexivity|]. split; [reflexivity|]. split; [cbn [op_wf]; apply wf_top|].
   constructor; [reflexivity|constructor].
 Qed.
+
+(* Members that share a collapsing / filled / converted / trimmed manager: a member B without
+   helper series has, candle by candle, the timestamps, values and entries of its standalone
+   twin fed the same chunks, and raises alike (C13_leaf_noninterference_on_any_manager restated
+   for the container). *)
+Theorem C08_leaf_member_on_shared_timeframe_equals_standalone :
+  forall (O : NumOps) (B : ind O) (others : list (bool * string)),
+  i_subs O B = [] /\ i_managed O B = [] -> i_sub O B = false -> leaf_kind O (i_kind O B) = true ->
+  has_dot (i_name O B) = false -> foreign O B others ->
+  forall shared alone : store O, PairedM O B others shared alone ->
+  map (fun c => (t c, cur O (p c), alist_get (i_name O B) (inds O (p c)))) shared =
+  map (fun c => (t c, cur O (p c), alist_get (i_name O B) (inds O (p c)))) alone /\
+  (forall e, calculate O B shared = Err e <-> calculate O B alone = Err e) /\
+  (forall cfg new, match mgr_append O cfg shared new, mgr_append O cfg alone new with
+                   | Ok _, Ok _ => True | Err e1, Err e2 => e1 = e2 | _, _ => False end).
+Proof. intros O B others Hl Ht Hk Hn Hf s1 s2 HP. eapply noninterference_on_any_manager; eassumption. Qed.
+Print Assumptions C08_leaf_member_on_shared_timeframe_equals_standalone.
